@@ -4,6 +4,7 @@ package main
 // endpoints.
 
 import (
+	"sort"
 	"fmt"
 	"go/token"
 	"go/types"
@@ -171,6 +172,7 @@ func checkC09(p *Prog, r *Report) {
 		}
 	}
 
+	fsOpen := map[*ssa.Function]bool{} /* filled below, before checkRoot is used */
 	var hfns map[*ssa.Function]bool
 	handlerFns := func() map[*ssa.Function]bool {
 		if nil == hfns {
@@ -188,6 +190,8 @@ func checkC09(p *Prog, r *Report) {
 		nconf := 0
 		for _, x := range rs {
 			switch {
+			case "param" == x.Kind && nil != x.V && nil != x.V.(*ssa.Parameter).Parent() && fsOpen[x.V.(*ssa.Parameter).Parent()] && 1 == paramIndex(x.V.(*ssa.Parameter).Parent(), x.V.(*ssa.Parameter)):
+				bad = append(bad, "the request (the name a file system is asked to open is the request's path)")
 			case "param" == x.Kind && nil != x.V && !typeIs(x.V.Type(), "net/http", "Request") && nil != x.V.(*ssa.Parameter).Parent() && !handlerFns()[topFn(x.V.(*ssa.Parameter).Parent())]:
 				/* A parameter of something which runs at start-up, not
 				for a request: configuration, like the roots. */
@@ -225,11 +229,81 @@ func checkC09(p *Prog, r *Report) {
 		}
 	}
 
-	n := 0
+	/* Where to look: the server's package, whatever a handler reaches in the
+	module, and the Open methods of module types handed out as file systems
+	there (net/http calls those with the request's path). */
+	scan := map[*ssa.Function]bool{}
 	for _, fn := range p.Funcs() {
-		if nil == fn.Pkg || !strings.HasSuffix(fn.Pkg.Pkg.Path(), "/"+hsrvPkg) {
-			continue
+		if nil != fn.Pkg && strings.HasSuffix(fn.Pkg.Pkg.Path(), "/"+hsrvPkg) {
+			scan[fn] = true
 		}
+	}
+	for f := range handlerReachable(p) {
+		scan[f] = true
+	}
+	for again := true; again; {
+		again = false
+		for fn := range scan {
+			eachInstr(fn, func(i ssa.Instruction) {
+				mi, ok := i.(*ssa.MakeInterface)
+				if !ok {
+					return
+				}
+				it, ok := mi.Type().Underlying().(*types.Interface)
+				if !ok {
+					return
+				}
+				hasOpen := false
+				for k := 0; k < it.NumMethods(); k++ {
+					if "Open" == it.Method(k).Name() {
+						hasOpen = true
+					}
+				}
+				n := namedOf(mi.X.Type())
+				if !hasOpen || nil == n || nil == n.Obj().Pkg() || !strings.HasPrefix(n.Obj().Pkg().Path(), ModPath) {
+					return
+				}
+				sel := p.SSA.MethodSets.MethodSet(mi.X.Type()).Lookup(n.Obj().Pkg(), "Open")
+				if nil == sel {
+					return
+				}
+				m := p.SSA.MethodValue(sel)
+				if nil == m || nil == m.Blocks || !inModule(m) {
+					return
+				}
+				fsOpen[m] = true
+				var add func(f *ssa.Function)
+				add = func(f *ssa.Function) {
+					if nil == f || scan[f] || !inModule(f) || nil == f.Blocks {
+						return
+					}
+					scan[f] = true
+					again = true
+					for _, a := range f.AnonFuncs {
+						add(a)
+					}
+					eachInstr(f, func(j ssa.Instruction) {
+						if c := callCommon(j); nil != c {
+							add(c.StaticCallee())
+						}
+					})
+				}
+				add(m)
+			})
+		}
+	}
+	var scanList []*ssa.Function
+	for fn := range scan {
+		scanList = append(scanList, fn)
+	}
+	sort.Slice(scanList, func(i, j int) bool {
+		if a, b := scanList[i].String(), scanList[j].String(); a != b {
+			return a < b
+		}
+		return scanList[i].Pos() < scanList[j].Pos()
+	})
+	n := 0
+	for _, fn := range scanList {
 		per := map[string]int{}
 		eachInstr(fn, func(i ssa.Instruction) {
 			/* http.Dir(x) conversions. */
